@@ -1,5 +1,6 @@
 import VermouthProofs.C14
 import VermouthProofs.C14_Groups
+import VermouthProofs.C14_Fix
 import VermouthProofs.Iso
 /-!
 # C14 — every unrecognised atom is explained by a known modification or reported
@@ -172,6 +173,155 @@ never exhausted, whatever the candidates are — no hypothesis on the fragments 
 theorem cover_terminates (np : List Int) (n : Nat) (tc : List Int) (frs : List Frag) (h : tc.length ≤ n) :
     coverGraph np n tc frs ≠ .outOfFuel :=
   coverWith_fuel usable_progress np n tc frs h
+
+/-! ## identify_ptms and one iteration of fix_ptm -/
+
+/-- `identify_ptms` on the groups of one iteration.  If it returns, every atom of every group is in a
+chosen placement, and an atom of a group without annotations from the input (`usedOf annot g = []`:
+the ordinary case, all its atoms are flagged) that is not a non-PTM atom of the residue is in EXACTLY
+one placement of the cover.  If it raises `KeyError`, every atom of every group without annotations
+is in the set handed to removal + warning.  It never runs out of fuel. -/
+theorem identify_spec (res : List Atom) (edges : List (Int × Int)) (mods : List Modif) (annot : Int → List Nat)
+    (groups : List Group) (frags : List Frag) :
+    match identify res edges mods annot groups frags with
+    | .ok used cov =>
+        (∀ g ∈ groups, ∀ a ∈ g.atoms, ∃ e ∈ used ++ cov, a ∈ patoms e.2)
+        ∧ (∀ g ∈ groups, usedOf annot g = [] → ∀ a ∈ g.atoms, a ∉ nonPtm res →
+            cov.countP (fun e => (patoms e.2).contains a) = 1)
+        ∧ (∀ e ∈ cov, ∃ f ∈ frags, f.1 = e.1 ∧ e.2 ∈ f.2)
+    | .keyError rm => ∀ g ∈ groups, usedOf annot g = [] → ∀ a ∈ g.atoms, a ∈ rm
+    | .outOfFuel => False := by
+  unfold identify
+  cases hl : identifyLoop res edges mods annot groups [] [] [] with
+  | inr r =>
+    obtain ⟨rm, rfl, _, h2⟩ := identifyLoop_inr _ _ _ _ _ hl
+    exact h2
+  | inl x =>
+    obtain ⟨cov, tc, pending⟩ := x
+    obtain ⟨_, _, _, i4⟩ := identifyLoop_inl _ _ _ _ _ _ _ hl
+    simp only []
+    cases hc : coverGraph (nonPtm res) tc.length tc frags with
+    | outOfFuel => exact absurd hc (cover_terminates _ _ _ _ (Nat.le_refl _))
+    | keyError =>
+      intro g hg hu a ha
+      exact ((i4 g hg).1 hu a ha).2
+    | ok c =>
+      refine ⟨?_, ?_, cover_sound _ _ _ _ _ hc⟩
+      · intro g hg a ha
+        by_cases hu : usedOf annot g = []
+        · obtain ⟨e, he, hae⟩ := (cover_exact _ _ _ _ _ hc).1 a ((i4 g hg).1 hu a ha).1
+          exact ⟨e, List.mem_append_right _ he, hae⟩
+        · obtain ⟨e, he, hae⟩ := (i4 g hg).2 hu a ha
+          exact ⟨e, List.mem_append_left _ he, hae⟩
+      · intro g hg hu a ha hnp
+        exact cover_exact_count _ _ _ _ _ hc a ((i4 g hg).1 hu a ha).1 hnp
+
+/-- One iteration of the loop of `fix_ptm`, for the groups `groups` with key `key`.  It ends in one of
+two ways.
+(removal) a warning naming exactly the removed atoms is added, those atoms are no longer in the
+molecule, nothing else is removed, and every atom of every group without input annotations is among
+them;
+(labelling) no atom is removed, no warning is added, every atom of every group is in a chosen
+placement — for groups without input annotations in exactly one placement of the cover when it is a
+PTM atom — and every atom of the residues of the key that is still in the molecule carries the
+modification of every chosen placement in its `modifications`. -/
+theorem step_label_or_remove (mods : List Modif) (orig : List Atom) (s : St) (key : List Int)
+    (groups : List Group) (given : List (List Placement)) :
+    let annot : Int → List Nat := fun k => ((orig.find? fun a => a.key == k).map (·.mods)).getD []
+    let nIdxs := (orig.filter fun a => key.contains a.resid).map (·.key)
+    let res := s.mol.atoms.filter fun a => nIdxs.contains a.key
+    ∃ s', step mods orig s key groups given = .done s' ∧
+      ((∃ rm l, s'.warnings = s.warnings ++ [rm] ∧ s'.removed = s.removed ++ rm
+          ∧ s'.log = s.log ++ [l] ∧ l.result = none
+          ∧ (∀ a, a ∈ s'.mol.keys ↔ a ∈ s.mol.keys ∧ a ∉ rm)
+          ∧ ∀ g ∈ groups, usedOf annot g = [] → ∀ a ∈ g.atoms, a ∈ rm)
+      ∨ (∃ used cov l, s'.warnings = s.warnings ∧ s'.removed = s.removed
+          ∧ s'.log = s.log ++ [l] ∧ l.result = some (used, cov)
+          ∧ s'.mol.keys = s.mol.keys
+          ∧ (∀ g ∈ groups, ∀ a ∈ g.atoms, ∃ e ∈ used ++ cov, a ∈ patoms e.2)
+          ∧ (∀ g ∈ groups, usedOf annot g = [] → ∀ a ∈ g.atoms, a ∉ nonPtm res →
+              cov.countP (fun e => (patoms e.2).contains a) = 1)
+          ∧ ∀ b ∈ s'.mol.atoms, b.key ∈ nIdxs → ∀ e ∈ used ++ cov, e.1 ∈ b.mods)) := by
+  intro annot nIdxs res
+  have hspec := identify_spec res (induced (res.map (·.key)) s.mol.edges) mods annot groups
+    ((allowed res (induced (res.map (·.key)) s.mol.edges) mods).zip given)
+  unfold step
+  simp only []
+  cases hid : identify res (induced (res.map (·.key)) s.mol.edges) mods annot groups
+      ((allowed res (induced (res.map (·.key)) s.mol.edges) mods).zip given) with
+  | outOfFuel => rw [hid] at hspec; exact hspec.elim
+  | keyError rm =>
+    rw [hid] at hspec
+    refine ⟨_, rfl, Or.inl ⟨rm, _, rfl, rfl, rfl, rfl, ?_, hspec⟩⟩
+    intro a
+    exact mem_removeAtoms_keys s.mol rm a
+  | ok used cov =>
+    rw [hid] at hspec
+    refine ⟨_, rfl, Or.inr ⟨used, cov, _, rfl, rfl, rfl, rfl, ?_, hspec.1, hspec.2.1, ?_⟩⟩
+    · exact foldl_applyOne_keys mods nIdxs (used ++ cov) s.mol.atoms
+    · intro b hb hin e he
+      obtain ⟨_, _, _, _, hl⟩ := foldl_applyOne_spec mods nIdxs (used ++ cov) s.mol.atoms hb
+      exact hl hin e he
+
+/-- `label_or_remove_partial`.  What is proved is the statement per iteration (`step_label_or_remove`,
+with `identify_spec`, `cover_exact_count` and `groups_partition`): every atom of a processed group is,
+when the iteration ends, either absent with a warning naming it, or present, in exactly one placement
+of the cover, with the modification in the `modifications` of all atoms of the residues of the key;
+and `fix_ptm` never aborts (every iteration returns `done`).  NOT proved in Lean: the composition over
+the whole loop (that the sorted / grouped iterations are a rearrangement of `findPtmGroups`, that an atom
+labelled or removed by one iteration is not touched by a later one, and that the renamed atom carries
+the atom name of its pattern node).  Full statement aimed at:
+  fixPtm m mods given = .done s → ∀ a ∈ m.atoms, a.ptm → annot a = [] →
+    (a.key ∉ s.mol.keys ∧ ∃ w ∈ s.warnings, a.key ∈ w)
+    ∨ (a.key ∈ s.mol.keys ∧ ∃! (l, e), l ∈ s.log ∧ l.result = some (u, c) ∧ e ∈ c ∧ a.key ∈ patoms e.2 ∧ e.1 ∈ (atom a.key of s.mol).mods) -/
+theorem label_or_remove_partial (mods : List Modif) (orig : List Atom) :
+    ∀ (its : List (List Int × List Group)) (s : St) (given : List (List (List Placement))),
+      ∃ s', runIters mods orig s its given = .done s'
+        ∧ (∀ w ∈ s.warnings, w ∈ s'.warnings)
+        ∧ (∀ a ∈ s'.mol.keys, a ∈ s.mol.keys)
+        ∧ (∀ a ∈ s.mol.keys, a ∉ s'.mol.keys → ∃ w ∈ s'.warnings, a ∈ w) := by
+  intro its
+  induction its with
+  | nil =>
+    intro s given
+    exact ⟨s, rfl, fun w h => h, fun a h => h, fun a h hn => absurd h hn⟩
+  | cons it its ih =>
+    intro s given
+    obtain ⟨key, groups⟩ := it
+    obtain ⟨s1, hs1, hcase⟩ := step_label_or_remove mods orig s key groups (given.headD [])
+    obtain ⟨s2, hs2, hw, hk, hr⟩ := ih s1 given.tail
+    refine ⟨s2, ?_, ?_, ?_, ?_⟩
+    · simp only [runIters, hs1, hs2]
+    · intro w hwin
+      apply hw
+      rcases hcase with ⟨rm, l, h1, _⟩ | ⟨u, c, l, h1, _⟩
+      · rw [h1]; exact List.mem_append_left _ hwin
+      · rw [h1]; exact hwin
+    · intro a ha
+      have := hk a ha
+      rcases hcase with ⟨rm, l, _, _, _, _, h5, _⟩ | ⟨u, c, l, _, _, _, _, h5, _⟩
+      · exact ((h5 a).1 this).1
+      · rw [h5] at this; exact this
+    · intro a ha hna
+      by_cases h1 : a ∈ s1.mol.keys
+      · exact hr a h1 hna
+      · rcases hcase with ⟨rm, l, hwarn, _, _, _, h5, _⟩ | ⟨u, c, l, _, _, _, _, h5, _⟩
+        · have : a ∈ rm := by
+            apply Classical.byContradiction
+            intro hnr
+            exact h1 ((h5 a).2 ⟨ha, hnr⟩)
+          exact ⟨rm, hw rm (by rw [hwarn]; simp), this⟩
+        · rw [h5] at h1; exact absurd ha h1
+
+/-- `fix_ptm` as a whole: it always returns; no atom disappears without a warning that names it (so
+nothing is removed silently), and warnings are never dropped. -/
+theorem removal_is_reported (m : Mol) (mods : List Modif) (given : List (List (List Placement))) :
+    ∃ s, fixPtm m mods given = .done s
+      ∧ (∀ a ∈ s.mol.keys, a ∈ m.keys)
+      ∧ ∀ a ∈ m.keys, a ∉ s.mol.keys → ∃ w ∈ s.warnings, a ∈ w := by
+  obtain ⟨s, hs, _, hk, hr⟩ := label_or_remove_partial mods m.atoms (iterations m)
+    { mol := m, removed := [], warnings := [], log := [] } given
+  exact ⟨s, hs, hk, hr⟩
 
 /-! ## witnesses -/
 
